@@ -492,7 +492,8 @@ func (e *c04Env) endBlocker() {
 			}
 			po, ok := prevOrder[[2]uint64{o.pair, o.id}]
 			if !ok {
-				e.t.Fatalf("order appeared during EndBlocker")
+				e.tr.Count("order:appeared_in_endblock")
+				continue
 			}
 			if !po.rem.Equal(o.rem) || !po.recv.Equal(o.recv) || !po.open.Equal(o.open) {
 				fills[o.pair] = append(fills[o.pair], fmt.Sprintf("%d:%s:%s:%s:%s", o.id, c04b(o.buy), po.rem.Sub(o.rem), o.recv.Sub(po.recv), po.open.Sub(o.open)))
@@ -584,7 +585,17 @@ func (e *c04Env) endBlocker() {
 			case db.IsPositive() && dq.IsZero():
 				flows[pl.pair] = append(flows[pl.pair], fmt.Sprintf("%d:1:0:%s", pl.id, db))
 			default:
-				e.t.Fatalf("pool %d.%d: reserve deltas %s %s not explainable by one-directional matching", a, pl.id, dq, db)
+				// not explainable by one-directional matching plus the recorded request results: report what moved and let
+				// the driver (DIFF) and the monitors on the state line judge — never abort the run
+				e.tr.Count("poolflow:unexplained")
+				pos := func(x sdkmath.Int) sdkmath.Int {
+					if x.IsNegative() {
+						return sdkmath.ZeroInt()
+					}
+					return x
+				}
+				flows[pl.pair] = append(flows[pl.pair], fmt.Sprintf("%d:1:%s:%s", pl.id, pos(dq.Neg()), pos(db)))
+				flows[pl.pair] = append(flows[pl.pair], fmt.Sprintf("%d:0:%s:%s", pl.id, pos(db.Neg()), pos(dq)))
 			}
 		}
 		// dust: delta of the app's dust collector per denom, attributed to the pair with that quote denom
@@ -1362,6 +1373,32 @@ func (e *c04Env) genDeposit(andFarm bool) {
 	}
 }
 
+// genDepositInto places a plain (pending) deposit request of a random user into a random existing pool of the app.
+func (e *c04Env) genDepositInto(app uint64) {
+	var pools []uint64
+	for _, p := range e.prev.pools {
+		if p.app == app && !p.disabled {
+			pools = append(pools, p.id)
+		}
+	}
+	if len(pools) == 0 {
+		return
+	}
+	poolID := pools[e.rng.Intn(len(pools))]
+	x, y := e.amount().MulRaw(3), e.amount().MulRaw(3)
+	if pl, found := e.k.GetPool(e.ctx, app, poolID); found {
+		rx, ry := e.k.GetPoolBalances(e.ctx, pl)
+		if ry.Amount.IsPositive() {
+			x = rx.Amount.Mul(y).Quo(ry.Amount)
+		}
+	}
+	if !x.IsPositive() {
+		x = sdkmath.OneInt()
+	}
+	e.tr.Count("deposit:other_app_same_block")
+	e.deposit(app, e.rng.Intn(4), poolID, x, y)
+}
+
 func (e *c04Env) genWithdraw() {
 	if app, poolID, ui, bal, ok := e.holder(); ok && e.rng.Chance(85) {
 		e.withdraw(app, ui, poolID, e.partOf(bal), e.rng.Chance(2))
@@ -1489,6 +1526,13 @@ func (e *c04Env) runRandom(blocks int, mode int) {
 				e.genUnfarm(false)
 			case 12:
 				e.genDeposit(true)
+				// a request executed inside its message stays in the store until the next BeginBlocker: put other users'
+				// pending requests of OTHER apps (same global escrow, overlapping denoms) into the same block
+				if e.rng.Chance(60) {
+					for k := 0; k < 1+e.rng.Intn(2); k++ {
+						e.genDepositInto(e.apps[e.rng.Intn(len(e.apps))])
+					}
+				}
 			default:
 				e.genUnfarm(true)
 			}
@@ -1613,6 +1657,31 @@ func (e *c04Env) witnessCancelAll() {
 	}
 }
 
+// witnessExecutedInMessage: requests that are executed inside their message (MsgDepositAndFarm, MsgUnfarmAndWithdraw) are
+// still in the store (status succeeded) when the EndBlocker's ExecuteRequests walks the requests at the end of the block.  In
+// the same block other users have PENDING deposit requests in other apps — same global escrow, same denoms — one app that
+// executes in this block (app 2) and one that does not (app 3, two-block batches).  An already executed request must not
+// move a coin again.
+func (e *c04Env) witnessExecutedInMessage() {
+	n := func(x int64) sdkmath.Int { return sdkmath.NewInt(x) }
+	for _, app := range []uint64{1, 2, 3} {
+		e.createPair(app, 0, e.coins[1], e.coins[2])
+		e.createPool(app, 0, 1, n(50_000_000), n(50_000_000), false, sdkmath.LegacyDec{}, sdkmath.LegacyDec{}, sdkmath.LegacyDec{})
+	}
+	e.nextBlock(5)
+	for round := 0; round < 3; round++ {
+		e.deposit(2, 2, 1, n(100_000_000), n(100_000_000))
+		e.deposit(2, 3, 1, n(100_000_000), n(100_000_000))
+		e.deposit(3, 2, 1, n(40_000_000), n(40_000_000))
+		e.depositAndFarm(1, 1, 1, n(10_000_000), n(10_000_000))
+		e.depositAndFarm(3, 1, 1, n(5_000_000), n(5_000_000))
+		e.withdraw(2, 0, 1, e.poolCoinBalance(0, 2, 1).QuoRaw(10), false)
+		e.unfarmAndWithdraw(1, 1, 1, n(1_000_000))
+		e.nextBlock(5)
+		e.nextBlock(5)
+	}
+}
+
 func c04Run(t *testing.T, prop string) {
 	tr := OpenTrace(t, strings.ToLower(prop)+".trace")
 	defer tr.Close(t)
@@ -1625,6 +1694,8 @@ func c04Run(t *testing.T, prop string) {
 	e.witnessLifecycle()
 	e = c04NewEnv(t, tr, rng, prop, 0)
 	e.witnessCancelAll()
+	e = c04NewEnv(t, tr, rng, prop, 0)
+	e.witnessExecutedInMessage()
 	nseq := scale(10, 120)
 	blocks := scale(45, 110)
 	if os := envInt("VERIF_SEARCH", 0); os == 1 {
